@@ -604,6 +604,8 @@ def check(repo, rep, tier):
     cls = r_delimiters(mod, rep)
     r_feature(mod, rep)
     r_atoms(mod, rep)
+    from . import c13
+    c13.r_dataclass(mod, rep, 'R5.2')        # what a text is read into is stored as given (no field rewritten on construction)
     r_associativity(mod, rep)
     rep.rule('R5.4', 'every category string of the shipped model files is well-formed text (read by an independent reader of the same grammar)')
     from .c17 import r_data
